@@ -265,12 +265,32 @@ def boxed(r):
     return lp
 
 
-FAMILIES = ["boxed", "random", "feasible", "degenerate", "infeasible_margin", "face_only", "unbounded", "special", "klee_minty", "beale"]
+def fixedcols(r):
+    """feasible bounded LP in which several columns are fixed at non-zero values and others are boxed"""
+    lp = feasible_bounded(r, r.randint(1, 4), r.randint(2, 5), kind="small")
+    for j in range(lp["n"]):
+        if r.random() < .4:
+            v = lp["lo"][j] if r.random() < .5 else lp["up"][j]
+            if v == 0:
+                v = F(r.choice([-3, -1, 2, 5]))
+            lp["lo"][j] = lp["up"][j] = v
+        if lp["obj"][j] == 0:
+            lp["obj"][j] = F(r.choice([-2, 1, 3]))
+    # right-hand sides were built around the old point; loosen the rows so that the LP stays feasible often
+    for i in range(lp["m"]):
+        if lp["sense"][i] == "E":
+            lp["sense"][i] = r.choice("LG")
+    return lp
+
+
+FAMILIES = ["boxed", "fixedcols", "random", "feasible", "degenerate", "infeasible_margin", "face_only", "unbounded", "special", "klee_minty", "beale"]
 
 
 def family(name, r):
     if name == "boxed":
         return boxed(r)
+    if name == "fixedcols":
+        return fixedcols(r)
     if name == "random":
         return random_lp(r)
     if name == "feasible":
